@@ -141,6 +141,9 @@ pub fn execute(sc: &BlockScenario, probes: &mut Counters, states: Option<&mut Ha
         if packets.len() > 1 {
             probes.inc("batched_step");
         }
+        if packets.len() > 65_000 {
+            probes.inc("hoarded_flood_over_65536_rows");
+        }
         let n = have.len() as u32;
         let all_source = src_have == k;
         if sc.data_hex.is_some() {
@@ -308,6 +311,26 @@ pub fn generate(seed: u64, quick: bool) -> BlockScenario {
         2 => Some(0),
         _ => Some(100_000),
     };
+    if r.chance(1, 20_000) {
+        // a hoarding receiver: all but a few source symbols and ~2^16 repair symbols in one call
+        // (a constraint matrix of more than 65 536 rows; the rank is full beyond reasonable doubt
+        // and the oracle confirms it)
+        let k = if r.chance(1, 4) { r.range(250, 300) as u32 } else { r.range(4, 40) as u32 };
+        let n = 65_400 + r.below(800) as u32;
+        let room = (1u32 << 24) - k;
+        let start = match r.below(3) {
+            0 => 0,
+            1 => r.below((room - n) as u64) as u32,
+            _ => room - n,
+        };
+        let withheld = 1 + r.below(k.min(4) as u64) as u32;
+        let mut batch: Vec<u32> = (withheld..k).collect();
+        batch.extend((0..n).map(|i| k + start + i));
+        if r.chance(1, 2) {
+            r.shuffle(&mut batch);
+        }
+        return BlockScenario { k, t, data_seed: 0x0C02_0000 + ((k as u64) << 8) + t as u64, threshold, steps: vec![batch], data_hex: None };
+    }
     if k <= 130 && r.chance(1, 12) {
         if let Some(sc) = generate_flood(&mut r, k, t, threshold) {
             return sc;
@@ -556,7 +579,7 @@ pub fn run(ctx: &Ctx) -> i32 {
         violations.push(to_violation(ctx, run, &min, &f2, Some((from, to))));
     }
     let mut probes = acc.probes.clone();
-    for k in ["no_hdpc_attempt_eligible", "decoded_at_exactly_k_by_solving", "decoded_from_repair_only", "duplicate_in_sequence", "batched_step", "all_zero_symbols_of_nonzero_block_at_ge_k"] {
+    for k in ["no_hdpc_attempt_eligible", "decoded_at_exactly_k_by_solving", "decoded_from_repair_only", "duplicate_in_sequence", "batched_step", "all_zero_symbols_of_nonzero_block_at_ge_k", "hoarded_flood_over_65536_rows"] {
         probes.touch(k);
     }
     probes.add("singular_at_ge_k_prefixes", acc.singular);
